@@ -49,6 +49,8 @@ func runC06(c *engine.Ctx, tier string) {
 		}},
 		Why: "RollbackIndex is the index the configuration reflected when the change was validated (or, for a rollback, the one captured by the rolled-back change)"})
 	captureLoop(c)
+	// what the commit of a rollback merges is the captured prior state (and of a change, the change)
+	commitSourceAs(c, "C06.3d")
 	// (4) commit
 	c.Guard(engine.Guard{ID: "C06.4a", Pkg: pkgProposalCtl, Min: 1, Sel: engine.Sel{Field: fCfgIndex, RHS: "@OWN"},
 		Require: "type(@P.Details) == *config/v2.Proposal_Change && @CFG.Status.Committed.Index == @PREV", Why: "committing a change makes it the change the configuration reflects"})
@@ -141,11 +143,21 @@ func captureLoop(c *engine.Ctx) {
 			}
 			if bad == "" {
 				// the captured map is what is stored on the VALIDATED path
+				stored, validated := false, false
 				for j := exit; j < len(p.Events); j++ {
 					ej := &p.Events[j]
-					if ej.Kind == engine.EvWrite && ej.Field == "config/v2.ProposalStatus.RollbackValues" && !strings.HasPrefix(ej.RHS, captured) {
-						bad = "P.Status.RollbackValues is assigned " + c.Render(ej.RHS) + ", not the captured map"
+					if ej.Kind == engine.EvWrite && ej.Field == "config/v2.ProposalStatus.RollbackValues" {
+						stored = true
+						if !strings.HasPrefix(ej.RHS, captured) {
+							bad = "P.Status.RollbackValues is assigned " + c.Render(ej.RHS) + ", not the captured map"
+						}
 					}
+					if ej.Kind == engine.EvWrite && ej.Field == "config/v2.ProposalValidatePhase.State" && ej.RHS == "config/v2.ProposalValidatePhase_VALIDATED" {
+						validated = true
+					}
+				}
+				if bad == "" && validated && !stored {
+					bad = "the proposal is VALIDATED on a path that captured the prior values but never stores them in P.Status.RollbackValues: a later rollback restores nothing"
 				}
 			}
 			if bad != "" {
